@@ -1,26 +1,34 @@
-import LaunchpadModel.Model.MintPay
+import LaunchpadModel.Model.MintPayStaged
 import LaunchpadModel.Model.Proto
 /-!
-Driver for C02 (mint payments, all 11 minters). One output line per input line.
+Driver for C02 (mint payments, all 11 minters, single-stage and tiered whitelists). One output line per input line.
 
 Header (generator fields, then witnesses appended by the harness after the real contracts were created):
-`case v=<0..10> d=<denom> price=<n> pay=<a|-> cap=<0|1> fee_bps=<n> air=<d:n> air_bps=<n> dev=<a> wl=<-|d:n:start:end> now=<ns>
-      accts=<a,…> denoms=<d,…> … xaccts=<contract a,…> minter=<a> admin=<a> init=<a:d:n,…|-> sup0=<d:n,…|->`   ⇒ `case`
+`case v=<0..10> d=<denom> price=<n> pay=<a|-> cap=<0|1> fee_bps=<n> air=<d:n> air_bps=<n> dev=<a> wl=<sched|-> wlb=<sched|-> now=<ns>
+      accts=<a,…> denoms=<d,…> feeaccts=<a,…> … xaccts=<contract a,…> minter=<a> admin=<a> init=<a:d:n,…|-> sup0=<d:n,…|->`   ⇒ `case`
+`<sched>` = `<i|x>@d:n:start:end+d:n:start:end…` (`i` = tiered kind, end-inclusive windows; `x` = single-stage kind, end-exclusive).
+Whitelist `a` (`wl=`) is attached at instantiation; `b` (`wlb=`) exists and can be attached later.
 
 Ops:
 * `t at=<ns>`
 * `fund a=<a> cs=<d:n,…>`
-* `mint who=<a> admin=<0|1> funds=<d:n,…|-> … allowed=<0|1>`       (allowed = witness: every non-payment check passed)
-* `set_price p=<n> acc=<0|1>` / `set_discount p=<n> acc=` / `rm_discount acc=` / `set_wl price=<d:n> start=<ns> end=<ns> acc=`
-* `sudo fee_bps=<n> air=<d:n> air_bps=<n> dev=<a> acc=<0|1>`          (acc = witness: the implementation accepted the update)
+* `mint who=<a> admin=<0|1> funds=<d:n,…|-> … allowed=<0|1>`       (allowed = witness: the call went through — it is CHECKED:
+                                                                   with allowed=1 the model still applies every payment rule)
+* `set_price p=<n> acc=<0|1>` / `set_discount p=<n> acc=` / `rm_discount acc=` / `set_wl which=<a|b> acc=`
+* `wl_edit which=<a|b> … acc=<0|1> stages=<sched>`                    (stages = the whitelist's table re-read after the edit)
+* `sudo fee_bps=<n> air=<d:n> air_bps=<n> dev=<a> … acc=<0|1>`          (acc = witness: the implementation accepted the update)
+* `other who=<a> … acc=<0|1> moves=<send:a:d:n,burn:d:n,…|->`           (any other ExecuteMsg; moves = observed net bank effect)
 
-Answer: `<ok|err> bal=<a:d:n,…> sup=<d:n,…> px=<price view>`.
+Answer: `<ok|err> bal=<a:d:n,… accounts outside feeaccts> ## fb=<fee-recipient balances> sup=<d:n,…> px=<price view> why=<-|diagnostic>`.
+Only the part before ` ## ` decides agreement (the fee split among the protocol recipients, the burnt share, the `MintPrice`
+query and the rejection reason are observations owned by other properties).
 -/
 open LP LP.Proto LP.MintPay
 
 structure St where
-  w : World
+  s : SWorld
   accts : List Addr
+  feeAccts : List Addr
   denoms : List Denom
 
 def triples? (s : String) : Option (List (Nat × Nat × Nat)) :=
@@ -37,13 +45,31 @@ def coin? (s : String) : Option Coin :=
 
 def coinKv (ws : List String) (key : String) : Option Coin := (kv ws key).bind coin?
 
-def wl? (s : String) : Option (Option Whitelist) :=
+def stage? (s : String) : Option Stage :=
+  match s.splitOn ":" with
+  | [a, b, c, d] => do
+    let dn ← nat? a; let n ← nat? b; let st ← nat? c; let en ← nat? d
+    pure ⟨⟨dn, n⟩, st, en⟩
+  | _ => none
+
+/-- `-` ⇒ no such whitelist; `i@…` / `x@…` -/
+def sched? (s : String) : Option (Option Sched) :=
   if s == "-" then some none
-  else match s.splitOn ":" with
-    | [a, b, c, d] => do
-      let dn ← nat? a; let n ← nat? b; let st ← nat? c; let en ← nat? d
-      pure (some ⟨⟨dn, n⟩, st, en⟩)
+  else match s.splitOn "@" with
+    | [k, body] => do
+      let incl ← (if k == "i" then some true else if k == "x" then some false else none)
+      let stages ← (if body == "" then some [] else (body.splitOn "+").mapM stage?)
+      pure (some ⟨stages, incl⟩)
     | _ => none
+
+def msg? (s : String) : Option Msg :=
+  match s.splitOn ":" with
+  | ["burn", d, n] => do let d ← nat? d; let n ← nat? n; pure (.burn ⟨d, n⟩)
+  | ["send", a, d, n] => do let a ← nat? a; let d ← nat? d; let n ← nat? n; pure (.send a ⟨d, n⟩)
+  | _ => none
+
+def msgs? (s : String) : Option (List Msg) :=
+  if s == "-" || s == "" then some [] else (s.splitOn ",").mapM msg?
 
 def lookup3 (l : List (Nat × Nat × Nat)) (a d : Nat) : Nat :=
   match l.find? fun (x, y, _) => x == a && y == d with
@@ -55,73 +81,102 @@ def lookup2 (l : List (Nat × Nat)) (d : Nat) : Nat :=
   | some (_, n) => n
   | none => 0
 
+def wlId (which : String) : Option Nat := if which == "a" then some 0 else if which == "b" then some 1 else none
+
 def parseHeader (ws : List String) : Option St := do
   let vi ← natKv ws "v"
   let v ← variants[vi]?
   let d ← natKv ws "d"; let price ← natKv ws "price"; let pay ← optNatKv ws "pay"; let cap ← boolKv ws "cap"
   let feeBps ← natKv ws "fee_bps"; let air ← coinKv ws "air"; let airBps ← natKv ws "air_bps"; let dev ← natKv ws "dev"
-  let wl ← (kv ws "wl").bind wl?
+  let wla ← (kv ws "wl").bind sched?
+  let wlb ← (kv ws "wlb").bind sched?
   let now ← natKv ws "now"
   let accts0 ← natListKv ws "accts"; let xaccts ← natListKv ws "xaccts"; let denoms ← natListKv ws "denoms"
+  let feeAccts ← natListKv ws "feeaccts"
   let accts := accts0 ++ xaccts
   let minter ← natKv ws "minter"; let admin ← natKv ws "admin"
   let init ← (kv ws "init").bind triples?
   let sup0 ← pairListKv ws "sup0"
   let bank : Bank := { bal := fun a dn => lookup3 init a dn, minted := fun dn => lookup2 sup0 dn, burned := fun _ => 0 }
+  let wls := (match wla with | some sc => [(0, sc)] | none => []) ++ (match wlb with | some sc => [(1, sc)] | none => [])
   pure {
-    w := { v := v,
-           f := { mintFeeBps := feeBps, airdropPrice := air, airdropFeeBps := airBps, devAddr := dev },
-           m := { addr := minter, admin := admin, paymentAddr := pay, mintPrice := ⟨d, price⟩, discount := none,
-                  whitelist := wl, hasCap := cap },
-           bank := bank, now := now },
-    accts := accts, denoms := denoms }
+    s := { w := { v := v,
+                  f := { mintFeeBps := feeBps, airdropPrice := air, airdropFeeBps := airBps, devAddr := dev },
+                  m := { addr := minter, admin := admin, paymentAddr := pay, mintPrice := ⟨d, price⟩, discount := none,
+                         whitelist := none, hasCap := cap },
+                  bank := bank, now := now },
+           wls := wls,
+           att := wla.map fun _ => 0 },
+    accts := accts, feeAccts := feeAccts, denoms := denoms }
 
 def renderCoin (c : Coin) : String := s!"{c.denom}:{c.amount}"
 def renderOptCoin : Option Coin → String
   | none => "-"
   | some c => renderCoin c
 
-def renderBal (s : St) : String :=
-  let es := s.accts.flatMap fun a => s.denoms.filterMap fun d =>
-    let n := s.w.bank.bal a d
+def renderBalOf (st : St) (accts : List Addr) : String :=
+  let es := accts.flatMap fun a => st.denoms.filterMap fun d =>
+    let n := st.s.w.bank.bal a d
     if n = 0 then none else some s!"{a}:{d}:{n}"
   if es.isEmpty then "-" else String.intercalate "," es
 
-def renderSup (s : St) : String :=
-  let es := s.denoms.map fun d => s!"{d}:{s.w.bank.supply d}"
+def renderSup (st : St) : String :=
+  let es := st.denoms.map fun d => s!"{d}:{st.s.w.bank.supply d}"
   if es.isEmpty then "-" else String.intercalate "," es
 
-/-- what the minter's `MintPrice {}` query reports (vending / open edition) -/
+/-- what the minter's `MintPrice {}` query reports (vending / open edition): public / current / discount / airdrop -/
 def renderPx (w : World) : String :=
   match w.v.family with
   | .vending | .openEdition =>
     let disc := match w.v.family with
       | .vending => renderOptCoin w.m.discount
       | _ => "-"
-    s!"{renderCoin w.m.mintPrice}/{renderCoin (senderPrice w.v w.m w.now)}/{disc}/{renderOptCoin (w.m.whitelist.map (·.price))}/{w.f.airdropPrice.amount}"
+    s!"{renderCoin w.m.mintPrice}/{renderCoin (senderPrice w.v w.m w.now)}/{disc}/{w.f.airdropPrice.amount}"
   | _ => "-"
 
-def obs (s : St) : String := s!"bal={renderBal s} sup={renderSup s} px={renderPx s.w}"
+def obs (st : St) (why : String) : String :=
+  let prim := st.accts.filter fun a => !st.feeAccts.contains a
+  let fee := st.accts.filter fun a => st.feeAccts.contains a
+  s!"bal={renderBalOf st prim} ## fb={renderBalOf st fee} sup={renderSup st} px={renderPx st.s.refresh} why={why}"
 
 def coinsOf (l : List (Nat × Nat)) : List Coin := l.map fun (d, a) => ⟨d, a⟩
 
-def parseOp (ws : List String) : Option Op :=
+def parseOp (ws : List String) : Option SOp :=
   match ws.head? with
-  | some "t" => do let t ← natKv ws "at"; pure (.time t)
+  | some "t" => do let t ← natKv ws "at"; pure (.base (.time t))
   | some "mint" => do
     let who ← natKv ws "who"; let ad ← boolKv ws "admin"; let fu ← pairListKv ws "funds"; let al ← boolKv ws "allowed"
-    pure (.mint who ad (coinsOf fu) al)
-  | some "set_price" => do let p ← natKv ws "p"; let acc ← boolKv ws "acc"; pure (.setPrice p acc)
-  | some "set_discount" => do let p ← natKv ws "p"; let acc ← boolKv ws "acc"; pure (.setDiscount p acc)
-  | some "rm_discount" => do let acc ← boolKv ws "acc"; pure (.rmDiscount acc)
+    pure (.base (.mint who ad (coinsOf fu) al))
+  | some "set_price" => do let p ← natKv ws "p"; let acc ← boolKv ws "acc"; pure (.base (.setPrice p acc))
+  | some "set_discount" => do let p ← natKv ws "p"; let acc ← boolKv ws "acc"; pure (.base (.setDiscount p acc))
+  | some "rm_discount" => do let acc ← boolKv ws "acc"; pure (.base (.rmDiscount acc))
   | some "set_wl" => do
-    let c ← coinKv ws "price"; let st ← natKv ws "start"; let en ← natKv ws "end"; let acc ← boolKv ws "acc"
-    pure (.setWhitelist ⟨c, st, en⟩ acc)
+    let id ← (kv ws "which").bind wlId; let acc ← boolKv ws "acc"
+    pure (.attach id acc)
+  | some "wl_edit" => do
+    let id ← (kv ws "which").bind wlId; let acc ← boolKv ws "acc"
+    let sc ← (kv ws "stages").bind sched?
+    pure (.wlEdit id (sc.getD ⟨[], false⟩) acc)
   | some "sudo" => do
     let fb ← natKv ws "fee_bps"; let air ← coinKv ws "air"; let ab ← natKv ws "air_bps"; let dev ← natKv ws "dev"
     let acc ← boolKv ws "acc"
-    pure (.sudoParams fb air ab dev acc)
+    pure (.base (.sudoParams fb air ab dev acc))
+  | some "other" => do
+    let who ← natKv ws "who"; let acc ← boolKv ws "acc"; let mv ← (kv ws "moves").bind msgs?
+    pure (.ext who mv acc)
   | _ => none
+
+/-- diagnostic part only: the implementation rejected a mint with what looks like a payment / price error (`pay=1`, taken from
+its error text) although the model's payment rules accept that payment -/
+def whyOf (s : SWorld) (op : SOp) (pay : Bool) : String :=
+  match op with
+  | .base (.mint who ad fu _) =>
+    if pay then
+      match step s.refresh (.mint who ad fu true) with
+      | .ok _ => "payment-error-on-a-payment-the-model-accepts"
+      | .error _ => "-"
+    else "-"
+  | _ => "-"
 
 def c02Line (st : Option St) (line : String) : Option St × String :=
   let ws := words line
@@ -136,15 +191,15 @@ def c02Line (st : Option St) (line : String) : Option St × String :=
         match natKv ws "a", pairListKv ws "cs" with
         | some a, some cs =>
           -- several `Op.fund` steps, one per coin
-          let w' := run s.w (cs.map fun (d, n) => Op.fund a ⟨d, n⟩)
-          let s' := { s with w := w' }
-          (some s', s!"ok {obs s'}")
+          let s2 := srun s.s (cs.map fun (d, n) => SOp.base (Op.fund a ⟨d, n⟩))
+          let s' := { s with s := s2 }
+          (some s', s!"ok {obs s' "-"}")
         | _, _ => (st, "bad-op")
       else (st, "bad-op")
     | some s, some op =>
-      match step s.w op with
-      | .ok w' => let s' := { s with w := w' }; (some s', s!"ok {obs s'}")
-      | .error _ => (some s, s!"err {obs s}")
+      match sstep s.s op with
+      | .ok s2 => let s' := { s with s := s2 }; (some s', s!"ok {obs s' "-"}")
+      | .error _ => (some s, s!"err {obs s (whyOf s.s op ((boolKv ws "pay").getD false))}")
     | _, _ => (st, "bad-op")
 
 def main : IO Unit := runDriverRaw (none : Option St) c02Line
